@@ -23,7 +23,7 @@ Proof.
   destruct ds as [ds|].
   - destruct (rest (s_ws (s_clear s))) as [|c r]; cbn [fst]; [lia|].
     destruct (in_delims ds c); cbn [fst]; [lia|].
-    destruct (skip_to_delim ds r) as [[d r']|]; cbn [fst]; apply greater_le_l.
+    destruct (skip_to_delim ds (c :: r)) as [d r'|r'|]; cbn [fst]; apply greater_le_l.
   - destruct (good (s_ws (s_clear s))); cbn [fst]; [apply greater_le_l|lia].
 Qed.
 
@@ -80,7 +80,8 @@ Qed.
 
 Definition DELIMS : list byte := [44%N; 41%N].   (* ",)" *)
 
-Definition clean (u : list byte) : Prop := forall c, In c u -> in_delims DELIMS c = false.
+(* no delimiter and no semicolon (the skipping loop of CheckRemainingInput stops at either) *)
+Definition clean (u : list byte) : Prop := forall c, In c u -> in_delims DELIMS c = false /\ N.eqb c 59 = false.
 
 (* "the unread input is a delimiter-free remainder followed by d :: r" *)
 Definition Before (d : byte) (r : list byte) (l : list byte) : Prop :=
@@ -166,11 +167,11 @@ Proof. intros H x E. apply N.eqb_eq in E. subst. exact H. Qed.
 
 (* skip_to_delim stops exactly at d *)
 Lemma skip_to_delim_Before d r l :
-  in_delims DELIMS d = true -> Before d r l -> skip_to_delim DELIMS l = Some (d, r).
+  in_delims DELIMS d = true -> Before d r l -> skip_to_delim DELIMS l = SkFound d r.
 Proof.
-  intros Hd [u [Hu E]]. subst. induction u as [|c u IH]; cbn.
+  intros Hd [u [Hu E]]. subst. induction u as [|c u IH]; cbn [app skip_to_delim].
   - rewrite Hd. reflexivity.
-  - rewrite (Hu c (or_introl eq_refl)). apply IH. eapply clean_tail; eauto.
+  - destruct (Hu c (or_introl eq_refl)) as [H1 H2]. rewrite H1, H2. apply IH. eapply clean_tail; eauto.
 Qed.
 
 (* CheckRemainingInput on a stream whose unread input is "Before d r":
@@ -189,9 +190,8 @@ Proof.
   destruct (in_delims DELIMS c) eqn:Ec.
   - cbn [snd rest eofb failb negb andb]. split; [|reflexivity].
     destruct HB' as [u [Hu Eu]]. destruct u as [|x u]; cbn in Eu; inversion Eu; subst; [reflexivity|].
-    rewrite (Hu x (or_introl eq_refl)) in Ec. discriminate.
-  - assert (HBl : Before d r l) by (eapply Before_tail; eauto).
-    rewrite (skip_to_delim_Before d r l Hd HBl). cbn. split; reflexivity.
+    rewrite (proj1 (Hu x (or_introl eq_refl))) in Ec. discriminate.
+  - rewrite (skip_to_delim_Before d r (c :: l) Hd HB'). cbn. split; reflexivity.
 Qed.
 
 (* ReadInteger leaves the stream at the delimiter *)
@@ -549,3 +549,22 @@ Proof. intros H. unfold write_real_text. rewrite H. reflexivity. Qed.
 (* (E) C05: the ReadReal scan buffer                                    *)
 Lemma read_real_buffer_safe s : READREAL_BUF = 0 \/ read_real_buf_index s < READREAL_BUF.
 Proof. left. reflexivity. Qed.
+
+(* garbage after a value is skipped up to the next delimiter, but never beyond the semicolon that ends the instance:
+   the stream is left at that semicolon and the error is not a recoverable one *)
+Lemma semicolon_stops_recovery u r s sev :
+  eofb s = false -> clean u -> u <> [] -> (forall c, In c u -> is_space c = false) -> rest s = u ++ 59%N :: r ->
+  check_remaining s sev (Some DELIMS) = (greater sev SEVERITY_INPUT_ERROR, mkS (59%N :: r) false false).
+Proof.
+  intros He Hu Hne Hsp Hr. unfold check_remaining. rewrite He.
+  unfold s_ws, s_clear, good. cbn [eofb failb rest negb andb]. rewrite Hr.
+  destruct u as [|c u']; [congruence|].
+  assert (Hc : is_space c = false) by (apply Hsp; left; reflexivity).
+  cbn [app skip_ws]. rewrite Hc. cbn [eofb rest].
+  destruct (Hu c (or_introl eq_refl)) as [H1 H2]. rewrite H1.
+  assert (E : forall v, clean v -> skip_to_delim DELIMS (v ++ 59%N :: r) = SkSemi r).
+  { induction v as [|x v IH]; intros Hv; cbn [app skip_to_delim].
+    - reflexivity.
+    - destruct (Hv x (or_introl eq_refl)) as [A B]. rewrite A, B. apply IH. eapply clean_tail; eauto. }
+  change (c :: u' ++ 59%N :: r) with ((c :: u') ++ 59%N :: r). rewrite (E (c :: u') Hu). reflexivity.
+Qed.
